@@ -584,8 +584,11 @@ func (check *Checker) processGenericFuncs() {
 				// method
 				if obj.Parent() == nil {
 					fnNode, _ := fn.node.(*ast.FuncDecl)
-					assert(fnNode != nil)
-					assert(fnNode.Recv != nil)
+					if fnNode == nil || fnNode.Recv == nil {
+						// no parent scope and no receiver: a function named _ or init
+						check.errorf(obj.Pos(), "%s cannot have generic variants", obj.Name())
+						continue
+					}
 					recvTypeName := fn.RecvTypeName()
 					for _, name := range info.Generic {
 						if xFn := check.lookupMethodFunc(recvTypeName, name); xFn != nil {
